@@ -1661,6 +1661,15 @@ class Interp:
             m2_ = re.match(r"^std::result::Result<(.+), [^,]+>$", n.get("ty", "") or "")
             if m2_:
                 callee = inst = "parse::<%s>" % m2_.group(1)
+        # `x.into()` / `x.try_into()` forwarded by core's blanket impl to a *local* `From` / `TryFrom` impl: that impl is
+        # what runs
+        if n.get("fwd") and len(args) == 1 and (callee or "").split("::")[-1] in ("into", "try_into"):
+            import facts as _facts
+            fw_ = _facts.norm_path(n["fwd"])
+            if fw_ in self.crate.bodies:
+                n2_ = {k_: v_ for k_, v_ in n.items() if k_ not in ("fwd", "inst")}
+                n2_["callee"] = fw_
+                return self.call_fn(fw_, None, args, n2_, fr)
         self.calls.append((inst or callee, args, n, self.cur_cond(), self.cur_fn()))
         # a `&mut` view handed on (`let s = buf.as_mut_slice(); f(s)`) is the same out-parameter as `f(&mut buf)`
         arg_nodes_ = ([n.get("recv")] if n.get("recv") is not None else []) + list(n.get("args") or [])
@@ -1889,6 +1898,68 @@ class Interp:
                     alts_ = [(c_, core(x).fields.get("0", UNIT)) for c_, x in flat_ if core(x).variant in ("Ok", "Some")]
                     if alts_:
                         return alts_[0][1] if len(alts_) == 1 else PhiV(alts_)
+        # `o.map_or(d, f)` / `o.and_then(f)` / `o.unwrap_or(d)` on known alternatives
+        if last in ("map_or", "and_then", "unwrap_or") and args and callee in ("std::option::Option::map_or", "std::result::Result::map_or", "std::option::Option::and_then", "std::result::Result::and_then", "std::option::Option::unwrap_or", "std::result::Result::unwrap_or"):
+            flat_ = flatten_phi(args[0])
+            if flat_ and all(isinstance(core(x), StructV) and core(x).variant in ("Ok", "Err", "Some", "None") for _, x in flat_) and (last == "unwrap_or" or isinstance(core(args[-1]), ClosureV)):
+                alts_ = []
+                for c_, x in flat_:
+                    x0 = core(x)
+                    if x0.variant in ("Ok", "Some"):
+                        if last == "unwrap_or":
+                            alts_.append((c_, x0.fields.get("0", UNIT)))
+                        else:
+                            self.ctx.append(("cond", c_))
+                            try:
+                                alts_.append((c_, self.call_closure(core(args[-1]), [x0.fields.get("0", UNIT)])))
+                            finally:
+                                self.ctx.pop()
+                    else:
+                        alts_.append((c_, args[1] if last in ("map_or", "unwrap_or") else x))
+                if n.get("ty") == "bool":
+                    return BoolV(Or(*[And(c_, self.to_formula(y_)) for c_, y_ in alts_]))
+                return alts_[0][1] if len(alts_) == 1 else PhiV(alts_)
+        # `r.ok()` on a symbolic Result: Some(payload) exactly when r is Ok
+        if callee == "std::result::Result::ok" and len(args) == 1 and not isinstance(core(args[0]), (StructV, PhiV)):
+            okf_ = atom("variant", core(args[0]).r(), "Ok")
+            return PhiV([(okf_, StructV("std::option::Option", "Some", {"0": Sel(args[0], "#Ok.0")})), (Not(okf_), StructV("std::option::Option", "None", {}))])
+        # `x.transpose()` on known alternatives: Some(Ok(v)) -> Ok(Some(v)), Some(Err(e)) -> Err(e), None -> Ok(None) (and back)
+        if last == "transpose" and len(args) == 1 and callee in ("std::option::Option::transpose", "std::result::Result::transpose"):
+            flat_ = [(c_, y_) for c_, x_ in flatten_phi(args[0]) for y_ in [x_]]
+            outs_ = []
+            ok_all = bool(flat_)
+            for c_, x_ in flat_:
+                x0 = core(x_)
+                if not (isinstance(x0, StructV) and x0.variant in ("Some", "None", "Ok", "Err")):
+                    ok_all = False
+                    break
+                if callee.startswith("std::option"):
+                    if x0.variant == "None":
+                        outs_.append((c_, StructV("std::result::Result", "Ok", {"0": x0})))
+                        continue
+                    for c2_, in_ in flatten_phi(x0.fields.get("0")):
+                        i0 = core(in_)
+                        if isinstance(i0, StructV) and i0.variant == "Ok":
+                            outs_.append((And(c_, c2_), StructV("std::result::Result", "Ok", {"0": StructV("std::option::Option", "Some", {"0": i0.fields.get("0")})})))
+                        elif isinstance(i0, StructV) and i0.variant == "Err":
+                            outs_.append((And(c_, c2_), i0))
+                        else:
+                            ok_all = False
+                else:
+                    if x0.variant == "Err":
+                        outs_.append((c_, StructV("std::option::Option", "Some", {"0": x0})))
+                        continue
+                    for c2_, in_ in flatten_phi(x0.fields.get("0")):
+                        i0 = core(in_)
+                        if isinstance(i0, StructV) and i0.variant == "Some":
+                            outs_.append((And(c_, c2_), StructV("std::option::Option", "Some", {"0": StructV("std::result::Result", "Ok", {"0": i0.fields.get("0")})})))
+                        elif isinstance(i0, StructV) and i0.variant == "None":
+                            outs_.append((And(c_, c2_), i0))
+                        else:
+                            ok_all = False
+            if ok_all and outs_:
+                outs_ = [(c_, x_) for c_, x_ in outs_ if c_ is not False]
+                return outs_[0][1] if len(outs_) == 1 and outs_[0][0] is True else PhiV(outs_)
         # `r.or(other)` on a receiver whose alternatives are known constructors: the success alternatives stay, every
         # failure alternative becomes `other`
         if last == "or" and len(args) == 2 and callee in ("std::result::Result::or", "std::option::Option::or"):
@@ -2001,6 +2072,41 @@ class Interp:
                 earlier.append(ok_i)
             alts.append((And(*[Not(e) for e in earlier]), none))
             return PhiV(alts)
+        # `opt.map(|x| <case split / constructor>)`, `opt.and_then(..)`, `opt.map_or(d, f)`, `opt.map_or_else(g, f)` on a
+        # symbolic Option: the result is the case split on `opt` being Some (so that a later `if let Some(t) = mapped`, or a
+        # boolean use, sees the cases).  Plain projections (`.map(|e| e.value)`) keep their call form.
+        if callee in ("std::option::Option::map", "std::option::Option::and_then", "std::option::Option::map_or", "std::option::Option::map_or_else") \
+                and args and isinstance(core(args[-1]), ClosureV) and not isinstance(core(args[0]), (StructV, PhiV)):
+            cl_ = core(args[-1])
+            body_ = cl_.node.get("body") or {}
+            while body_.get("k") == "Block" and body_.get("expr"):
+                body_ = body_["expr"]
+            builds_ = body_.get("k") in ("Match", "If", "Struct", "Tup") or (body_.get("k") == "Call" and "Ctor" in (body_.get("dk") or "")) \
+                or (body_.get("k") == "Binary" and body_.get("ty") == "bool") or (body_.get("k") == "MethodCall" and body_.get("ty") == "bool")
+            if last in ("map_or", "map_or_else") or builds_:
+                some_ = self._some(core(args[0]))
+                if some_ is None:
+                    some_ = atom("some", core(args[0]).r())
+                self.ctx.append(("cond", some_))
+                try:
+                    y_ = self.call_closure(cl_, [Sel(args[0], "?")])
+                finally:
+                    self.ctx.pop()
+                none_ = StructV("std::option::Option", "None", {})
+                if last == "map":
+                    return PhiV([(some_, StructV("std::option::Option", "Some", {"0": y_})), (Not(some_), none_)])
+                if last == "and_then":
+                    return PhiV([(some_, y_), (Not(some_), none_)])
+                d_ = args[1]
+                if last == "map_or_else" and isinstance(core(d_), ClosureV):
+                    self.ctx.append(("cond", Not(some_)))
+                    try:
+                        d_ = self.call_closure(core(d_), [])
+                    finally:
+                        self.ctx.pop()
+                if n.get("ty") == "bool":
+                    return BoolV(Or(And(some_, self.to_formula(y_)), And(Not(some_), self.to_formula(d_))))
+                return PhiV([(some_, y_), (Not(some_), d_)])
         # closures handed to foreign adaptors (map, fold, filter_map, for_each, map_err, ...):
         # apply them once to symbolic arguments so that their callees and places are visible
         _fnitem = self._is_fnitem
